@@ -165,7 +165,7 @@ def run_shard(ctx):
     os.chdir(sut.scratch_dir())
     rnd = random.Random(ctx.shard_seed)
     # (b) malformed inputs
-    for i in range(ctx.n(50000, 1000000)):
+    for i in range(ctx.n(50000, 250000)):
         src = soup.gen_soup(rnd)
         kw, ml, thresh = soup.draw_options(rnd)
         if i % 2:
@@ -174,7 +174,7 @@ def run_shard(ctx):
         if ctx.too_many():
             return
     targets = soup.shape_targets()
-    for i in range(ctx.n(15000, 300000)):
+    for i in range(ctx.n(15000, 75000)):
         head, args, name = rnd.choice(targets)
         src = next(soup.shapes_for(head, args, rnd=rnd, limit=1)) if len(args) > 0 else head + rnd.choice(soup.FOLLOW)
         if rnd.random() < 0.5:
@@ -182,11 +182,11 @@ def run_shard(ctx):
         kw, ml, thresh = soup.draw_options(rnd)
         kw['pack'] = '*,cleveref'
         run_one(ctx, src, kw, ml, thresh, 'shape')
-    for i in range(ctx.n(6000, 100000)):
+    for i in range(ctx.n(6000, 25000)):
         src = soup.definition_shape(rnd)
         kw, ml, thresh = soup.draw_options(rnd)
         run_one(ctx, src, kw, ml, thresh, 'definition-shape')
-    for i in range(ctx.n(24000, 400000)):
+    for i in range(ctx.n(24000, 100000)):
         src = soup.wrapped_shape(rnd, targets)
         kw, ml, thresh = soup.draw_options(rnd)
         kw['pack'] = '*,cleveref'
@@ -224,7 +224,7 @@ def run_shard(ctx):
 
     from vlib import docprop
     docprop.run_source('')     # makes sure the scratch files (sed) exist
-    hyp_run(ctx, docgen.document, doc_case, ctx.n(20000, 400000))
+    hyp_run(ctx, docgen.document, doc_case, ctx.n(20000, 100000))
 
     from props import c08_errors
 
@@ -238,12 +238,12 @@ def run_shard(ctx):
         if len(cli_pool) < 80 and r.random() < 0.03:
             cli_pool.append((src, kw, ml))
         run_one_h(src, kw, ml, thresh, 'fault:' + info['kind'])
-    hyp_run(ctx, c08_errors.case_s, fault_case, ctx.n(20000, 400000), seed=ctx.shard_seed + 500)
+    hyp_run(ctx, c08_errors.case_s, fault_case, ctx.n(20000, 100000), seed=ctx.shard_seed + 500)
 
     if TIMEOUTS:
         ctx.error('filter exceeded 20 s on %d input(s), first: %r' % (len(TIMEOUTS), TIMEOUTS[0]))
     # (d) command line
-    ncli = ctx.n(200, 3000)
+    ncli = ctx.n(200, 750)
     while len(cli_pool) < ncli:
         kw, ml, thresh = soup.draw_options(rnd)
         cli_pool.append((soup.gen_soup(rnd), kw, ml))
